@@ -58,6 +58,22 @@ def gen_cases(run, thorough):
         code = max(2, cl + rng.choice([0, 0, 0, 1, -1, 2, -2, 9, -9, 63, -64, rng.randrange(-64, 64)]))
         dc = rng.choice([rng.randrange(0, 16), rng.randrange(0, 16 + nd + 4), rng.randrange(0, 1 << rng.randrange(5, 32))])
         cases.append("cmd %d %d %d %d %d %d" % (nd, np, il, cl, code, dc))
+    # RecomputeDistancePrefixes: every ordered pair of the parameter settings the encoder can move between
+    # (BrotliBuildMetaBlock tries npostfix 0..3 with ndirect 0..15 << npostfix; FONT mode starts at (12, 1)), with
+    # distance codes in every class: short codes, direct codes of the old / of the new setting, around 16 + ndirect
+    # of both, bucket boundaries, large; commands with and without an explicit distance
+    sets = settings() + [(12, 1)]
+    pairs = [(a, b) for a in sets for b in sets]
+    if not thorough:
+        pairs = [(a, b) for (a, b) in pairs if a == (12, 1) or b == (12, 1) or a == b] + rng.sample(pairs, 400)
+    for (nd0, np0), (nd1, np1) in pairs:
+        dcs = set(range(0, 16)) | set(range(16, 16 + max(nd0, nd1) + 4))
+        dcs |= {16 + nd0 + d for d in (-1, 0, 1)} | {16 + nd1 + d for d in (-1, 0, 1)}
+        dcs |= {rng.randrange(0, 1 << rng.randrange(5, 31)) for _ in range(6 if not thorough else 20)}
+        for dc in sorted(x for x in dcs if x >= 0):
+            il = rng.choice([0, 1, 5, 6, 200, 70000])
+            cl = rng.choice([2, 3, 9, 10, 70, 3000])
+            cases.append("recmd %d %d %d %d %d %d %d %d" % (nd0, np0, nd1, np1, il, cl, cl, dc))
     return cases
 
 
@@ -191,7 +207,7 @@ def check(run):
     for c in cases:
         t = c.split()
         v = int(t[1])
-        if (t[0] == "ins" and v >= 6) or (t[0] == "copy" and v >= 10) or (t[0] == "blen" and v >= 17) or t[0] in ("comb", "cmd") or \
+        if (t[0] == "ins" and v >= 6) or (t[0] == "copy" and v >= 10) or (t[0] == "blen" and v >= 17) or t[0] in ("comb", "cmd", "recmd") or \
            (t[0] == "pdist" and v >= 16 + int(t[2])):
             nontriv.add(c)
     run.cov["distinct_nontrivial"] = len(nontriv)
@@ -201,7 +217,7 @@ def check(run):
     run.cov["exhaustive_note"] = ("thorough: insert 0..22594+2^24, copy 2..2118+2^24, block 1..16625+2^24 and distance codes 0..2^21 x 64 settings "
                                   "enumerated completely (model vs implementation); quick: prefixes of those ranges")
     run.cov["samples"] = [cases[0], cases[len(cases) // 3], cases[len(cases) // 2], cases[-1], rs[0]]
-    run.cov["kinds"] = {k: sum(1 for c in cases if c.startswith(k)) for k in ("ins", "copy", "comb", "blen", "pdist", "cmd")}
+    run.cov["kinds"] = {k: sum(1 for c in cases if c.split()[0] == k) for k in ("ins", "copy", "comb", "blen", "pdist", "cmd", "recmd")}
     if not ok_proof and not run.violations:
         # proof stage broken but nothing found by the search above
         run.report("proof-obligation", {"stage": "proof"}, {"broken": broken}, broken="; ".join(b[:400] for b in broken), found_input=False)
